@@ -14,14 +14,14 @@ RULE = (
     "being randomised, are opened by an independent ECIES on libcrypto instead) AND an independently written strict parser (must recover "
     "directory size, absolute addresses, stored/declared lengths, both MACs with IV = 1-based index, tag lists, sentinel, contiguous payloads to EOF) "
     "AND a strict text parser (comment lines, one blank line, upper-case hex, every non-final line exactly 80 columns). "
-    "'rewrite': ONE file object serialised, edited through its public attributes (tags, component list, payloads) and serialised again - every output must be the model's bytes for the object as it is then (non-trivial = directory size changed between two serialisations). "
+    "'rewrite': ONE file object serialised, edited through its public attributes (tags, component list, payloads) and serialised again - every output must be the model's bytes for the object as it is then (non-trivial = directory size changed between two serialisations); in half of the cases consecutive serialisations use ANOTHER session key and start offset. "
     "Non-trivial = >= 2 components, or offset not in {0,5}, or >= 1 tag, or BEC2 framing; distinct by case hash."
 )
 ASSUMPTIONS = [
     "AES of the model is OpenSSL libcrypto (EVP, CBC, zero IV), cross-checked against a from-the-definition AES in C16",
     "the writer's single trailing empty line after the hex block is allowed (not part of the stated layout, not contradicting it)",
 ]
-REQUIRED_CLASSES = ["rewrite.directory-size-changed.same-count", "rewrite.directory-size-changed.count-changed", "same-component-object-listed-twice", "enc-component>4KiB", "flag-tag-mismatch=flag-without-tag", "flag-tag-mismatch=tag-without-flag", "offset>65535", "comps>=2", "bec2.blocks>=2", "bec2.ecc", "enc-component", "route=path", "entries>255", "bec2.unknown-tag-block"]
+REQUIRED_CLASSES = ["rewrite.other-key-than-previous-write", "rewrite.directory-size-changed.same-count", "rewrite.directory-size-changed.count-changed", "same-component-object-listed-twice", "enc-component>4KiB", "flag-tag-mismatch=flag-without-tag", "flag-tag-mismatch=tag-without-flag", "offset>65535", "comps>=2", "bec2.blocks>=2", "bec2.ecc", "enc-component", "route=path", "entries>255", "bec2.unknown-tag-block"]
 
 
 def _model_comps(case, key):
@@ -210,8 +210,17 @@ def check_rewrite(case, rec):
     model = [edits._copy(c) for c in case["comps"]]
     f = sut.Bf3File({}, [sut.mk_component(c) for c in model])
     last, done, nt = None, [], False
+    k1, kw1, offset1 = k, kw, offset
+    k2, offset2 = case.get("alt_key") or k, offset + case.get("alt_offset", 0)
+
+    nwrites = [0]
 
     def compare(when):
+        # the key (and the start offset) are parameters of EACH serialisation: with alt_key the writes alternate between two keys / offsets
+        nwrites[0] += 1
+        k, kw, offset = (k2, {"session_key": k2}, offset2) if (case.get("alt_key") and nwrites[0] % 2 == 0) else (k1, kw1, offset1)
+        if nwrites[0] >= 2 and case.get("alt_key"):
+            rec.cls("rewrite.other-key-than-previous-write")
         mcomps = _model_comps(dict(comps=model), k)
         try:
             got = f.to_binary(offset, **kw)
@@ -229,7 +238,7 @@ def check_rewrite(case, rec):
     for op in list(case["ops"]) + [("write",)]:
         if op[0] == "write":
             now = (len(model), edits.dir_size(model))
-            if done:
+            if done or case.get("alt_key"):
                 if now[1] != last[1]:
                     rec.cls("rewrite.directory-size-changed" + (".same-count" if now[0] == last[0] else ".count-changed"))
                     nt = True
@@ -251,6 +260,8 @@ def strat_rewrite(tier):
         key=S.session_key(),
         offset=st.one_of(st.sampled_from([0, 5]), st.integers(0, 4096)),
         ops=edits.ops(6 if tier == "quick" else 12, max_len=300, enc=True),
+        alt_key=st.one_of(st.none(), st.binary(min_size=16, max_size=16)),
+        alt_offset=st.sampled_from([0, 0, 1, 16, 91]),
     ))
 
 
